@@ -60,6 +60,9 @@ class FileDumper(DumperBase):
             if file_formatter is not None:
                 self.file_formatters[resource.name] = file_formatter
                 self.file_formatters[resource.name].prepare_resource(resource)
+                if resource.descriptor.get('path') == 'datapackage.json':
+                    raise ValueError("Resource %r cannot be written to 'datapackage.json': "
+                                     "that name is taken by the package descriptor" % resource.name)
                 resource.commit()
                 datapackage.descriptor['resources'][i] = resource.descriptor
 
